@@ -2,6 +2,7 @@ package main
 
 import (
 	"fmt"
+	"go/ast"
 	"go/token"
 	"go/types"
 	"strings"
@@ -260,11 +261,86 @@ func init() {
 				}
 			}
 		}
+		r2 := runCatalog(g, id, g.printerShape())
+		res.obligations += r2.obligations
+		res.discharged += r2.discharged
+		res.violations += r2.violations
+		res.samples = append(res.samples, r2.samples...)
 		return res
 	}
 	propertyAssumptions["C07"] = []string{
 		"the precedence table (binPrec / unPrec and the node kinds at the selector, comparison levels) in ast/verif_contracts.go transcribes the GoogleSQL operator-precedence table; it is the reviewable trusted spec of this property",
 		"operator nodes are not modified after they are built, except the sign folding of number literals in parseUnary (which builds no operator node)",
-		"not covered: that ast/sql.go prints operator nodes exactly as `left op right` with paren() as the only source of parentheses (the printer side is checked for exprPrec only)",
+		"printer side: exprPrec is verified on the real switch; that the nine operator SQL() methods print their operands only through paren(exprPrec(recv), operand) and contain no parenthesis literal is a structural check of ast/sql.go, not an SMT obligation; the exact `left op right` text is not verified",
 	}
+}
+
+// printerShape: in ast/sql.go, the SQL() method of every operator node type prints each Expr-typed
+// operand only as paren(p, recv.F) with p := exprPrec(recv), and contains no parenthesis literal of
+// its own: paren() is the only source of parentheses around operands (C07, printer side).
+func (g *Gen) printerShape() []*catOblig {
+	var obs []*catOblig
+	pkg := g.astPackage()
+	defs := g.cs.GhostDefs["prec"]
+	exprIface := pkg.Types.Scope().Lookup("Expr").Type().Underlying().(*types.Interface)
+	for _, f := range pkg.Syntax {
+		for _, d := range f.Decls {
+			fd, ok := d.(*ast.FuncDecl)
+			if !ok || fd.Recv == nil || fd.Name.Name != "SQL" || fd.Body == nil || len(fd.Recv.List[0].Names) == 0 {
+				continue
+			}
+			se, ok := fd.Recv.List[0].Type.(*ast.StarExpr)
+			if !ok {
+				continue
+			}
+			id, ok := se.X.(*ast.Ident)
+			if !ok || defs["ast."+id.Name] == nil {
+				continue
+			}
+			ni := g.nodeInfos()["ast."+id.Name]
+			recv := fd.Recv.List[0].Names[0].Name
+			ob := &catOblig{Name: "ast.(*" + id.Name + ").SQL/printer-shape", Tags: []string{"C07"}, Pos: g.prog.Fset.Position(fd.Pos()), Result: "unsat"}
+			obs = append(obs, ob)
+			exprFields := map[string]bool{}
+			for i := 0; i < ni.st.NumFields(); i++ {
+				if types.Implements(ni.st.Field(i).Type(), exprIface) {
+					exprFields[ni.st.Field(i).Name()] = true
+				}
+			}
+			var problems []string
+			parenArgs := map[ast.Expr]bool{}
+			ast.Inspect(fd.Body, func(n ast.Node) bool {
+				switch x := n.(type) {
+				case *ast.CallExpr:
+					if fid, ok := x.Fun.(*ast.Ident); ok && fid.Name == "paren" && len(x.Args) == 2 {
+						if pid, ok := x.Args[0].(*ast.Ident); !ok || pid.Name != "p" {
+							problems = append(problems, "paren() is not called with p")
+						}
+						parenArgs[x.Args[1]] = true
+					}
+				case *ast.AssignStmt:
+					if len(x.Lhs) == 1 && fmt.Sprint(x.Lhs[0]) == "p" {
+						if call, ok := x.Rhs[0].(*ast.CallExpr); !ok || fmt.Sprint(call.Fun) != "exprPrec" || len(call.Args) != 1 || fmt.Sprint(call.Args[0]) != recv {
+							problems = append(problems, "p is not exprPrec("+recv+")")
+						}
+					}
+				case *ast.BasicLit:
+					if x.Kind == token.STRING && (strings.Contains(x.Value, "(") || strings.Contains(x.Value, ")")) {
+						problems = append(problems, "string literal "+x.Value+" contains a parenthesis")
+					}
+				case *ast.SelectorExpr:
+					if xid, ok := x.X.(*ast.Ident); ok && xid.Name == recv && exprFields[x.Sel.Name] && !parenArgs[x] {
+						problems = append(problems, "operand "+recv+"."+x.Sel.Name+" is used outside paren(p, ...)")
+					}
+				}
+				return true
+			})
+			ob.Detail = fmt.Sprintf("operands %v printed through paren(p, .) only", sortedKeys(exprFields))
+			if len(problems) > 0 {
+				ob.Failed = strings.Join(problems, "; ")
+				ob.Result = "sat"
+			}
+		}
+	}
+	return obs
 }
